@@ -5,6 +5,8 @@ package vh
 // through any schema codec of cedar-go.
 
 import (
+	"sort"
+
 	"github.com/cedar-policy/cedar-go/types"
 	"github.com/cedar-policy/cedar-go/x/exp/ast"
 	"github.com/cedar-policy/cedar-go/x/exp/schema/resolved"
@@ -45,6 +47,16 @@ func EncC15Schema(s *C15Schema) any {
 	for _, uid := range s.ActionUIDs {
 		a := s.RS.Actions[uid]
 		m := map[string]any{"uid": EncUID(uid)}
+		var parents []types.EntityUID
+		for pu := range a.Entity.Parents.All() {
+			parents = append(parents, pu)
+		}
+		sortedUIDs(parents)
+		ps := []any{}
+		for _, pu := range parents {
+			ps = append(ps, EncUID(pu))
+		}
+		m["parents"] = ps
 		if a.AppliesTo != nil {
 			ps, rs := []any{}, []any{}
 			for _, p := range a.AppliesTo.Principals {
@@ -57,7 +69,31 @@ func EncC15Schema(s *C15Schema) any {
 		}
 		acts = append(acts, m)
 	}
-	return map[string]any{"entityTypes": ets, "actions": acts}
+	// schema.Entities (declared, non-enum entity types): shape, tags, parent types
+	ents := []any{}
+	var names []string
+	for n := range s.RS.Entities {
+		names = append(names, string(n))
+	}
+	sort.Strings(names)
+	for _, n := range names {
+		e := s.RS.Entities[types.EntityType(n)]
+		shape := e.Shape
+		if shape == nil {
+			shape = resolved.RecordType{}
+		}
+		m := map[string]any{"name": Hex(n), "shape": EncC15Type(shape)}
+		if e.Tags != nil {
+			m["tags"] = EncC15Type(e.Tags)
+		}
+		ps := []any{}
+		for _, p := range e.ParentTypes {
+			ps = append(ps, Hex(string(p)))
+		}
+		m["parents"] = ps
+		ents = append(ents, m)
+	}
+	return map[string]any{"entityTypes": ets, "actions": acts, "entities": ents}
 }
 
 // EncC15Policy: scopes + conditions (the effect and annotations play no role in validation).
